@@ -1,5 +1,13 @@
 # Per-property check configuration for ./check (entries = harness entry functions in /verif/harness).
 PROPS = {
+    "C10": {
+        "quick": {"entries": ["H_C10_Sequence"], "opts": {"maxpaths": 400000}},
+        "thorough": {"entries": ["H_C10_Sequence"], "opts": {"maxpaths": 3000000}},
+        "covers": {"H_C10_Sequence": ["c10.sequence"]},
+        "bounds": {"sequence_length": 4, "alphabet": "quick: queue x / queue y / queue unique(2B) / get(overhead 2, NumNodes in {0,9,99}, limit symbolic 0..9) / prune(0|1) / reset; thorough: + unique(1B), plain(group), get(overhead 0)", "RetransmitMult": "{1,2}"},
+        "outside": ["message lengths are concrete per operation variant (1 or 2 bytes): lengths are enumerated, the byte limit is the symbolic quantity", "btree internals are executed from their real SSA (not stubbed)"],
+        "assumptions": [],
+    },
     "C02": {
         "quick": {"entries": ["H_C02_Refute", "H_C02_SelfAnnounce"]},
         "thorough": {"entries": ["H_C02_Refute", "H_C02_SelfAnnounce"]},
